@@ -24,7 +24,7 @@ def bsplvn(self, x, ileft):
     while j < self.nord - 1:
         ipj = ileft + j + 1
         deltap[:, j] = bkpt[ipj] - x
-        imj = ileft - j + 1
+        imj = ileft - j
         deltam[:, j] = x - bkpt[imj]
         vmprev = 0.0
         for l in range(j + 1):
